@@ -1231,6 +1231,124 @@ pub fn gen_os(tier: &str, seed: u64) -> Vec<String> {
         }
     }
 
+    // ---- t5 begin: (d2) two cancel-on-press macros started together (one key, `multi`), a long and a
+    //     short one in both orders; another key pressed while the long one is still in progress (after
+    //     the short one is over, and before).  The trigger "is enabled while the macro is in
+    //     progress" (docs/config.adoc, macro-cancel-on-press): the press must cancel the long macro
+    //     whichever of the two set the window last (judged by clause (3) of the free oracle).
+    for (long_d, short_d) in [(300u32, 10u32), (120, 1), (60, 25)] {
+        for long_first in [true, false] {
+            for form in [FORMS[2], FORMS_REPEAT[2]] {
+                let long_m = format!("({form} q {long_d} w)");
+                let short_m = format!("({form} t {short_d} y)");
+                let (m0, m1) = if long_first { (&long_m, &short_m) } else { (&short_m, &long_m) };
+                let settle = 2 * (long_d + short_d + 12) + 30;
+                let cfg = format!(
+                    ";; family os-cancel-press\n;; settle {settle}\n(defsrc 1 a b c)\n(deflayer l0 (multi {m0} {m1}) a mmid c)\n"
+                );
+                for at in [1u32, 3, short_d + 2, short_d + 6, long_d / 3, long_d / 2, long_d - 5, long_d - 1] {
+                    let mut h = vec![kp(mk(0))];
+                    kt(&mut h, 1);
+                    h.push(kr(mk(0)));
+                    kt(&mut h, at);
+                    h.push(kp(ka));
+                    kt(&mut h, 3);
+                    h.push(kr(ka));
+                    kt(&mut h, settle + 5);
+                    lines.push(mk_kline("KOS", false, &cfg, &h));
+                }
+            }
+        }
+    }
+    // ---- t5 end
+    // ---- t5 begin: (d3) a defseq sequence typed (leader, then the keys - plain, chorded with the
+    //     left or the right modifier key) or completed by the macro's own keys while a macro holds a
+    //     modifier group over a delay, in all three sequence input modes.  Completing a sequence
+    //     drops the typed keys' states; what the macro holds must stay: the OS events projected onto
+    //     the macro's own keys are the spelled list (`;; expect-os-proj <macro key> <k,k,..> <events>`;
+    //     the sequence's own outputs - typed keys, backspaces, the virtual key's z - are outside
+    //     that projection).  (seeded change C08g)
+    {
+        let kc = |n: &str| code(n);
+        let modes = ["visible-backspaced", "hidden-suppressed", "hidden-delay-type"];
+        // (macro prefix, its OS code, the left / right physical key that types the same modifier)
+        let mods = [("S-", 42u16, "lsft", "rsft"), ("C-", 29, "lctl", "rctl"), ("A-", 56, "lalt", "ralt")];
+        for (mi, mode) in modes.iter().enumerate() {
+            for (xi, (pfx, mcode, lkey, rkey)) in mods.iter().enumerate() {
+                for delay in [120u32, 500] {
+                    if delay == 500 && !thorough && (mi + xi) % 3 != 0 {
+                        continue;
+                    }
+                    let settle = 2 * (delay + 20) + 30;
+                    // -- typed during the delay
+                    for (si, seq) in [format!("{pfx}(a b)"), format!("{pfx}a {pfx}b"), "a b".to_string(), format!("a {pfx}b")].iter().enumerate() {
+                        for physical in [*rkey, *lkey] {
+                            let cfg = format!(
+                                ";; family os-seq-macro\n;; settle {settle}\n;; expect-os-proj 2 {mcode},45,21 d{mcode} d45 u45 d21 u21 u{mcode}\n(defcfg sequence-input-mode {mode})\n(defsrc 1 0 {lkey} {rkey} a b c)\n(deflayer l0 (macro {pfx}(x {delay} y)) sldr {lkey} {rkey} a b c)\n(defvirtualkeys s1 z)\n(defseq s1 ({seq}))\n"
+                            );
+                            for start in [10u32, 40] {
+                                let km = kc(physical);
+                                let mut h = vec![kp(mk(0))];
+                                kt(&mut h, 2);
+                                h.push(kr(mk(0)));
+                                kt(&mut h, start);
+                                h.push(kp(kc("0")));
+                                kt(&mut h, 2);
+                                h.push(kr(kc("0")));
+                                kt(&mut h, 6);
+                                let chord_a = si == 0 || si == 1;
+                                let chord_b = si != 2;
+                                if chord_a {
+                                    h.push(kp(km));
+                                    kt(&mut h, 5);
+                                }
+                                h.push(kp(kc("a")));
+                                kt(&mut h, 5);
+                                if !chord_a && chord_b {
+                                    h.push(kr(kc("a")));
+                                    kt(&mut h, 3);
+                                    h.push(kp(km));
+                                    kt(&mut h, 5);
+                                }
+                                h.push(kp(kc("b")));
+                                kt(&mut h, 5);
+                                if chord_a || !chord_b {
+                                    h.push(kr(kc("a")));
+                                }
+                                h.push(kr(kc("b")));
+                                if chord_a || chord_b {
+                                    kt(&mut h, 2);
+                                    h.push(kr(km));
+                                }
+                                kt(&mut h, settle + 1100);
+                                lines.push(mk_kline("KOS", false, &cfg, &h));
+                            }
+                        }
+                    }
+                    // -- completed by the macro itself: leader first, then the macro key; the macro's
+                    //    own `<mod>-a` is the sequence, its group still has `y` to type.  Only in the
+                    //    visible mode: the hidden modes swallow what the macro types into the pending
+                    //    sequence - its modifier press included - by design (the sequence consumes it)
+                    if mi != 0 {
+                        continue;
+                    }
+                    let cfg = format!(
+                        ";; family os-seq-macro\n;; settle {settle}\n;; expect-os-proj 2 {mcode},21 d{mcode} d21 u21 u{mcode}\n(defcfg sequence-input-mode {mode})\n(defsrc 1 0 a b c)\n(deflayer l0 (macro {pfx}(a {delay} y)) sldr a b c)\n(defvirtualkeys s1 z)\n(defseq s1 ({pfx}a))\n"
+                    );
+                    let mut h = vec![kp(kc("0"))];
+                    kt(&mut h, 2);
+                    h.push(kr(kc("0")));
+                    kt(&mut h, 10);
+                    h.push(kp(mk(0)));
+                    kt(&mut h, 2);
+                    h.push(kr(mk(0)));
+                    kt(&mut h, settle + 1100);
+                    lines.push(mk_kline("KOS", false, &cfg, &h));
+                }
+            }
+        }
+    }
+    // ---- t5 end
     // (e) two macros overlapping at every offset, and random histories over 2-3 macros, the plain
     //     key and the custom key
     for i in 0..(if thorough { 30 } else { 6 }) {
